@@ -15,6 +15,7 @@ import (
 	"bytes"
 	"encoding/json"
 	"fmt"
+	"math"
 	"reflect"
 	"sort"
 	"strings"
@@ -521,23 +522,81 @@ func c12Errors(r *Run) {
 	}
 }
 
-// ---- integers beyond 2^53 (decoded through float64)
+// ---- integers beyond 2^53: a 64-bit integer survives decoding and re-encoding exactly, wherever it stands
+// (defect D5, repaired: the decoders went through float64)
 
 func c12BigInts(r *Run) {
-	for _, k := range []int{1<<53 + 1, -(1<<53 + 1), 1<<62 + 12345, 9007199254740993} {
-		row := ovsdb.Row{"n": k}
-		e1, _ := json.Marshal(row)
+	asInt := func(v interface{}) (int, bool) {
+		switch t := v.(type) {
+		case float64:
+			return int(t), float64(int(t)) == t
+		case int:
+			return t, true
+		}
+		return 0, false
+	}
+	for _, k := range []int{1<<53 + 1, -(1<<53 + 1), 1<<62 + 12345, 9007199254740993, math.MaxInt64, math.MinInt64 + 1, math.MinInt64, 1 << 53, 1<<53 - 1, 42} {
+		cs := map[string]interface{}{"integer": fmt.Sprint(k)}
+		r.Case("bigint", fmt.Sprint(k))
+		bad := func(where, got string) {
+			cs["where"] = where
+			r.Violation("bigint", cs, got, fmt.Sprint(k), true, "a 64-bit integer does not survive decoding and re-encoding ("+where+")", "integer-above-2^53")
+		}
+		// in a row
+		e1, _ := json.Marshal(ovsdb.Row{"n": k})
 		var d ovsdb.Row
 		_ = json.Unmarshal(e1, &d)
 		e2, _ := json.Marshal(d)
-		r.Case("bigint", fmt.Sprint(k))
-		var back float64
-		if f, ok := d["n"].(float64); ok {
-			back = f
+		if back, ok := asInt(d["n"]); !ok || back != k || !strings.Contains(string(e2), fmt.Sprint(k)) {
+			bad("row", fmt.Sprintf("decoded %v, re-encoded %s", d["n"], e2))
+			continue
 		}
-		if int(back) != k || !strings.Contains(string(e2), fmt.Sprint(k)) {
-			r.Violation("bigint", map[string]interface{}{"integer": fmt.Sprint(k), "text": string(e1)}, fmt.Sprintf("decoded %v, re-encoded %s", d["n"], e2), fmt.Sprint(k), true,
-				"an integer beyond 2^53 does not survive decoding (decoded through float64)", "integer-above-2^53")
+		// in a set, as a map key and value, in a condition, in a mutation
+		set, _ := ovsdb.NewOvsSet([]int{k, 7})
+		es, _ := json.Marshal(set)
+		var ds ovsdb.OvsSet
+		_ = json.Unmarshal(es, &ds)
+		if len(ds.GoSet) != 2 {
+			bad("set", fmt.Sprint(ds.GoSet))
+			continue
+		}
+		if back, ok := asInt(ds.GoSet[0]); !ok || back != k {
+			bad("set", fmt.Sprint(ds.GoSet))
+			continue
+		}
+		om, _ := ovsdb.NewOvsMap(map[int]int{k: k})
+		em, _ := json.Marshal(om)
+		var dm ovsdb.OvsMap
+		_ = json.Unmarshal(em, &dm)
+		okm := len(dm.GoMap) == 1
+		for kk, vv := range dm.GoMap {
+			a, oa := asInt(kk)
+			b, ob := asInt(vv)
+			okm = okm && oa && ob && a == k && b == k
+		}
+		if !okm {
+			bad("map", fmt.Sprint(dm.GoMap))
+			continue
+		}
+		ec, _ := json.Marshal(ovsdb.NewCondition("n", ovsdb.ConditionEqual, k))
+		var dc ovsdb.Condition
+		_ = json.Unmarshal(ec, &dc)
+		if back, ok := asInt(dc.Value); !ok || back != k {
+			bad("condition", fmt.Sprint(dc.Value))
+			continue
+		}
+		emu, _ := json.Marshal(ovsdb.NewMutation("n", ovsdb.MutateOperationAdd, k))
+		var dmu ovsdb.Mutation
+		_ = json.Unmarshal(emu, &dmu)
+		if back, ok := asInt(dmu.Value); !ok || back != k {
+			bad("mutation", fmt.Sprint(dmu.Value))
+			continue
+		}
+		// and into the native value of an integer column
+		var col ovsdb.ColumnSchema
+		_ = json.Unmarshal([]byte(`{"type":"integer"}`), &col)
+		if nv, err := ovsdb.OvsToNative(&col, d["n"]); err != nil || nv != k {
+			bad("native", fmt.Sprint(nv, err))
 		}
 	}
 }
@@ -715,7 +774,7 @@ func recodeCorrespond(r *Run, stream, kind string, text []byte) {
 	var mo struct {
 		Class     string          `json:"class"`
 		Reencoded json.RawMessage `json:"reencoded"`
-		Val       interface{}     `json:"val"`
+		Val       Exact           `json:"val"`
 	}
 	if err := r.Mdl.Call(map[string]interface{}{"fn": "recodeWire", "kind": kind, "json": json.RawMessage(text)}, &mo); err != nil {
 		r.Violation(stream, cs, out, err.Error(), false, "model driver failed", "")
@@ -735,7 +794,7 @@ func recodeCorrespond(r *Run, stream, kind string, text []byte) {
 	}
 	if kind == "operation" {
 		a, _ := json.Marshal(renderOp(val.(ovsdb.Operation)))
-		b, _ := json.Marshal(canonModelOp(mo.Val))
+		b, _ := json.Marshal(canonModelOp(mo.Val.V))
 		if string(a) != string(b) {
 			r.Violation(stream, cs, string(a), string(b), false, "decoded operation differs between implementation and model", "")
 		}
@@ -743,7 +802,7 @@ func recodeCorrespond(r *Run, stream, kind string, text []byte) {
 	}
 	if iv, ok := renderDecoded(kind, val); ok {
 		a, _ := json.Marshal(dropNulls(iv, true))
-		b, _ := json.Marshal(dropNulls(canonModelDeep(mo.Val), true))
+		b, _ := json.Marshal(dropNulls(canonModelDeep(mo.Val.V), true))
 		if string(a) != string(b) {
 			r.Violation(stream, cs, string(a), string(b), false, "decoded "+kind+" differs between implementation and model", "")
 		}
